@@ -18,7 +18,7 @@ PROP = 'C02'
 LEVEL = 'fault_enumeration'
 EVAL_KEY = 'roundings'
 TIERS = {
-    'quick': {'runs': 2400, 'opts': {}, 'chunk': 30},
+    'quick': {'runs': 20000, 'opts': {}, 'chunk': 100},
     'thorough': {'runs': 120000, 'opts': {}, 'chunk': 100, 'time_cap': 1200},
 }
 RULE = ('seeded TT tensors / TT matrices (random, over-parameterised x+x and x+0*y, zero-padded ranks, rank-deficient cores, cores '
@@ -84,8 +84,12 @@ def gen_case(rng):
     return p
 
 
+AMP = {'v': 1.0}
+
+
 def build(p):
     """Returns (x, known ranks or None, generic)."""
+    AMP['v'] = 1.0
     g = gen.vgen(p['vseed'])
     dt = p['dt']
     N = p['N']
@@ -151,8 +155,11 @@ def build(p):
         known = p['R']
     elif cls == 'zero_y':
         y = TT(gen.rand_cores(N, [1] + [2] * (d - 1) + [1], dt, g, M))
-        x = base + 0.0 * y if False else base + (y - y)
+        x = base + (y - y)
         known = p['R']
+        # the stored terms +y and -y cancel exactly in value but not in roundoff: the attainable accuracy is relative to
+        # the magnitude of the stored terms, not to ||x||
+        AMP['v'] = 1.0 + 2.0 * gen.fro(gen.dense(y)) / max(gen.fro(gen.dense(base)), 1e-300)
     elif cls == 'padded':
         cores = []
         for k, c in enumerate(base.cores):
@@ -247,10 +254,14 @@ def contract(p, x, y, ref, known):
     ratio = None
     LAST['ratio'] = None
     if not binding:
-        # roundoff allowance: QR/SVD sweeps are backward stable w.r.t. the core norms; for the badly scaled/conditioned
-        # classes the representation itself limits the attainable accuracy to ~ u * scale
-        amp = p.get('scale', 1.0) if p['cls'] == 'gauge' else p.get('cond', 1.0) if p['cls'] == 'saturate' else 1.0
-        bound = e * nx * (1 + 1e-9) + 200 * u * nx * math.sqrt(d) * amp
+        # roundoff allowance: the QR/SVD sweeps are backward stable with respect to the *cores*, so the attainable
+        # accuracy is relative to the magnitude of the representation, prod_k ||G_k||_F (>= ||x||; much larger when the
+        # stored terms cancel, e.g. x + (y - y), badly conditioned gauges, chains of rank>1 cores over singleton modes)
+        rep = 1.0
+        for c_ in x.cores:
+            rep *= gen.fro(c_)
+        rep = max(rep * AMP['v'], nx)
+        bound = e * nx * (1 + 1e-9) + 200 * u * rep * math.sqrt(d)
         ratio = err / (e * nx) if e * nx > 0 else 0.0
         LAST['ratio'] = ratio
         if not err <= bound:
